@@ -19,8 +19,12 @@
     assume `KSpec k`: `E` returns 16 bytes, `xor` is the byte-wise XOR, `gh` is the specification's
     `(tag ⊕ block) • H`.  `kspec_sm4` discharges it for the instance the driver runs
     (`newGCM key …`: SM4 of the specification).  That the arm64 ASSEMBLY kernels compute these
-    functions is C05 (SM4 kernels) / C06 (`gHashBlocks`, `clmul_reduce_eq_mulGF`) and is not
-    executable in this sandbox; it is not claimed here.
+    functions is proved over the regenerated arm64 listings in Props/C05Arm64.lean (all six SM4
+    kernels, X16 in the tmp = dst calling shape) and Props/C06Arm64.lean (`gHashBlocks` for every
+    count, the five `xorN` routines in the three calling shapes of this glue) — under arm64
+    instruction semantics that cannot be validated against a CPU in this sandbox.  The two results
+    are not composed into one Lean statement (different memory models: slice heap here, regions of
+    the interpreter there); the composition is the `KSpec` interface.
   * FUNCTIONAL (C06/C07 for this path): `sealA64_appends`: the bytes appended are
     `Spec.GCM.sealGCM E t nonce pt aad` for EVERY length up to the bound the code enforces
     ((2^32−2)·16 bytes) — no case split by length class, the 32-bit counter wrap included;
